@@ -36,9 +36,9 @@ def graphAcc (g : Graph) : FIS → Graph
     | none => g1
     | some v =>
       let hs := headsL subs
-      { nodes := addAll (addNew g1.nodes v) loads,
+      { nodes := addAll (addNew g1.nodes v) (loads.map Prod.fst),
         solid := addAll g1.solid (hs.map (fun u => (u, v))),
-        dashed := addAll g1.dashed (loads.map (fun u => (u, v))) }
+        dashed := addAll g1.dashed (loads.map (fun u => (u.1, v))) }
 def graphAccL (g : Graph) : List FIS → Graph
   | [] => g
   | f :: fs => graphAccL (graphAcc g f) fs
